@@ -275,6 +275,10 @@ def run_property(prop, tier="quick", seed=0, jobs=None, rebaseline=False, only=N
                 if rec["verdict"] != "refuted":
                     continue
                 status, detail = native_replay(reg, e["key"], rec.get("inputs"))
+                if status == "passes" and e["kind"] not in ("ensures", "raises", "raises-ensures"):
+                    # the native run evaluates the contract's clauses only; invariants, frames, call preconditions and
+                    # ghost lemmas have no native counterpart: the refuted obligation stands, without a failing input
+                    status, detail = "no-replay", f"a {e['kind']} obligation has no native counterpart (the contract's clauses hold natively on the model)"
                 match = _match_known(kf, name, rec.get("inputs"), detail)
                 if match is not None:
                     known_lines.append(f"KNOWN-FINDING: property={prop} {match['what']}")
